@@ -134,8 +134,12 @@ class Harness(object):
         setattr(self.cf, name, v)
         self.model[name] = [x * k for x in self.model[name]]
 
-    def op_filter(self, mask):
-        self.cf.filter(np.array(mask, bool))
+    def op_filter(self, mask, kind="bool"):
+        # "an nrows long array of true/false" in any representation numpy turns into booleans
+        arg = {"bool": lambda m: np.array(m, bool), "list": lambda m: [bool(x) for x in m],
+               "int": lambda m: np.array(m, int) * 3, "float": lambda m: np.array(m, float) * 0.25,
+               "neg": lambda m: -np.array(m, int), "u8": lambda m: np.array(m, np.uint8) * 255}[kind](mask)
+        self.cf.filter(arg)
         for k in self.model:
             self.model[k] = [x for x, keep in zip(self.model[k], mask) if keep]
         self.n = int(sum(mask))
@@ -459,7 +463,8 @@ def make_machine(tmpdir):
 
         @rule(data=st.data())
         def filter(self, data):
-            self.do("filter", [data.draw(st.lists(st.booleans(), min_size=self.h.n, max_size=self.h.n))])
+            self.do("filter", [data.draw(st.lists(st.booleans(), min_size=self.h.n, max_size=self.h.n)),
+                               data.draw(st.sampled_from(["bool", "bool", "list", "int", "float", "neg", "u8"]))])
 
         @rule(data=st.data(), tol=st.sampled_from([0, 0, 0.3, 0.75]))
         def removerows(self, data, tol):
